@@ -81,12 +81,16 @@ class Array:
 
     def __sub__(self, other):
         if isinstance(other, Array):
+            if len(self.arr)!=len(other.arr):
+                raise ValueError("arrays not of the same length: " + str(len(self.arr)) + "!=" + str(len(other.arr)))
             return Array([sv-ov for (sv,ov) in zip(self.arr, other.arr)])
         
         return NotImplemented
 
     def __add__(self, other):
         if isinstance(other, Array):
+            if len(self.arr)!=len(other.arr):
+                raise ValueError("arrays not of the same length: " + str(len(self.arr)) + "!=" + str(len(other.arr)))
             return Array([sv+ov for (sv,ov) in zip(self.arr, other.arr)])
         elif is_base_value(other) or isinstance(other, LinComb):
             return Array([sv+other for sv in self.arr])
